@@ -125,6 +125,7 @@ pub enum Key {
     Upgrade(u8),
     BlockTimestamp,
     LastTxId([u8; ADDRESS_LEN]),
+    BlockValidatorUpdate([u8; ADDRESS_LEN]),
 }
 /// every stored value is carried as a u128 payload; the typed accessors below decode it per key family
 pub type Val = u128;
@@ -156,6 +157,7 @@ impl Key {
             Key::Upgrade(k) => (20, [0, 0], k),
             Key::BlockTimestamp => (21, [0, 0], 0),
             Key::LastTxId(a) => (22, a, 0),
+            Key::BlockValidatorUpdate(a) => (23, a, 0),
         };
         (t << 24) | ((a[0] as u32) << 16) | ((a[1] as u32) << 8) | (b as u32)
     }
@@ -471,6 +473,45 @@ pub mod fees_shim {
     impl<T: StateWrite + ?Sized> StateWriteShim for T {}
 }
 pub use fees_shim::{StateReadExt as _, StateWriteShim as _};
+
+pub mod validators_shim {
+    use super::*;
+    #[derive(Clone, Copy, Debug, PartialEq, Eq)]
+    pub struct VerificationKey { pub addr: [u8; ADDRESS_LEN] }
+    impl VerificationKey { pub fn address_bytes(&self) -> &[u8; ADDRESS_LEN] { &self.addr } pub fn display_address(&self) -> u8 { 0 } }
+    impl AddressBytes for VerificationKey { fn address_bytes(&self) -> &[u8; ADDRESS_LEN] { &self.addr } }
+    #[derive(Clone, Copy, Debug, PartialEq, Eq)]
+    pub struct ValidatorUpdate { pub power: u32, pub verification_key: VerificationKey, pub name: u8 }
+    /// the per-block update set (keyed by verification key): read-modify-write of one entry
+    pub struct ValidatorSet { pub changed: Option<ValidatorUpdate> }
+    impl ValidatorSet { pub fn insert(&mut self, u: ValidatorUpdate) { self.changed = Some(u); } }
+    pub trait StateReadExt: StateRead {
+        fn get_validator_count(&self) -> eyre::Result<u64> {
+            if let Some(e) = io_err() { return e; }
+            match store().get(Key::ValidatorCount) { Some(v) => Ok(v as u64), None => Err(eyre::Report::new()) }
+        }
+        fn get_validator<T: AddressBytes>(&self, key: &T) -> eyre::Result<Option<ValidatorUpdate>> {
+            if let Some(e) = io_err() { return e; }
+            Ok(store().get(Key::Validator(*key.address_bytes())).map(|v| ValidatorUpdate { power: v as u32, verification_key: VerificationKey { addr: *key.address_bytes() }, name: 0 }))
+        }
+        fn get_block_validator_updates(&self) -> eyre::Result<ValidatorSet> {
+            if let Some(e) = io_err() { return e; }
+            Ok(ValidatorSet { changed: None })
+        }
+    }
+    impl<T: StateRead + ?Sized> StateReadExt for T {}
+    pub trait StateWriteExt: StateWrite {
+        fn put_validator_count(&mut self, count: u64) -> eyre::Result<()> { store().put(Key::ValidatorCount, count as Val); Ok(()) }
+        fn put_validator(&mut self, v: &ValidatorUpdate) -> eyre::Result<()> { store().put(Key::Validator(v.verification_key.addr), v.power as Val); Ok(()) }
+        fn remove_validator<T: AddressBytes>(&mut self, key: &T) { store().delete(Key::Validator(*key.address_bytes())); }
+        fn put_block_validator_updates(&mut self, set: ValidatorSet) -> eyre::Result<()> {
+            if let Some(u) = set.changed { store().put(Key::BlockValidatorUpdate(u.verification_key.addr), u.power as Val); }
+            Ok(())
+        }
+    }
+    impl<T: StateWrite + ?Sized> StateWriteExt for T {}
+}
+pub use validators_shim::{StateReadExt as _, StateWriteExt as _, ValidatorUpdate, ValidatorSet, VerificationKey};
 
 pub mod upgrades_shim {
     use super::*;
